@@ -2877,6 +2877,9 @@ class PGPKeyring(collections_abc.Container, collections_abc.Iterable, collection
                     identifier = issuer
                     break
 
+            else:
+                raise KeyError("none of the issuers of this message is loaded")
+
         if isinstance(identifier, PGPSignature):
             identifier = identifier.signer
 
